@@ -174,7 +174,7 @@ def work(shard, rec):
     os.makedirs(scratch, exist_ok=True)
     rnd = G.rng("c18", shard["seed"], shard["idx"])
     for ti in range(shard["n"]):
-        fault, placement = shard["combos"][ti]
+        fault, placement = shard["combos"][ti % len(shard["combos"])]
         st = {"mode": rnd.randrange(3), "premium": rnd.random() < 0.3, "default_bg": rnd.choice([None, None, "var(--page-bg, white)", "var(--page-bg)"])}
         pristine = os.path.join(scratch, f"p{ti}")
         shutil.rmtree(pristine, ignore_errors=True)
